@@ -117,11 +117,12 @@ def judge(lines, info, traj, run: Run, recs, ended):
                 probs.append((f"C04:{kind}-body-started-after-block-ended",
                               f"{kind} {li['id']} started its body at tick {s}; its enclosing block ended at tick {encl_end}"))
             for c in cancels:
-                # a cancel that arrives after the condition was seen true (activation) is too late by design of the statement's
-                # "cancelled" = accepted before activation; judge only cancels before any tick with a true condition since reg
-                if s >= c and not any(cond[lo:c]) and not any(f < c for f in forces):
-                    probs.append((f"C04:{kind}-body-started-after-cancel",
-                                  f"{kind} {li['id']} cancel accepted before tick {c} (condition not yet true) but body started at tick {s}"))
+                # an *accepted* cancel must keep the body from starting afterwards (a cancel that comes too late, i.e. after the
+                # condition was seen true, is rejected by the engine and then does not count as a cancel)
+                if s >= c:
+                    late = any(cond[lo:c]) or any(f < c for f in forces)
+                    probs.append((f"C04:{kind}-body-started-after-cancel" + (":cancel-accepted-after-activation" if late else ""),
+                                  f"{kind} {li['id']} cancel accepted before tick {c} but its body started at tick {s}"))
         if kind == "Watch" and not nested_in_interrupt and len(starts) > 1:
             probs.append(("C04:Watch-body-started-more-than-once", f"Watch {li['id']} started at ticks {starts}"))
         if kind == "Alarm" and not nested_in_interrupt:
